@@ -8,7 +8,7 @@ for p in sorted(glob.glob("/verif/seeded/*/meta.json")):
     rows.append((name, m))
 lines = ["| seeded change | property | what it does | needs | caught by | first run |", "|---|---|---|---|---|---|"]
 for name, m in rows:
-    first = "missed / imprecise -> strengthened" if m.get("initially_missed") else "caught"
+    first = "obsolete after a repair" if m.get("status") == "obsolete" else ("missed / imprecise -> strengthened" if m.get("initially_missed") else "caught")
     lines.append("| %s | %s | %s | %s | %s | %s |" % (
         name, m["property"], (m.get("summary") or "").replace("|", "/").replace("\n", " ")[:260],
         (m.get("needs") or "").replace("|", "/").replace("\n", " ")[:200],
